@@ -71,6 +71,34 @@ namespace c09
         static std::string show(const T &v) { return std::to_string((long double)v); }
     };
 
+    // long double: 10 significant bytes in a 16-byte image; the 6 padding bytes of an object are indeterminate, so the
+    // canonical form has them zeroed (the API policies zero them in what the writer produced, after checking the width)
+    template <> struct Ref<long double>
+    {
+        static long double gen(kit::Rng &r, GenCfg &)
+        {
+            return (long double)(int64_t)(r.next() % 2000001) / 8.0L - 125000.0L;
+        }
+        static void enc(const long double &v, std::string &out)
+        {
+            char img[sizeof(long double)];
+            memset(img, 0, sizeof img);
+            memcpy(img, &v, 10);
+            out.append(img, sizeof img);
+        }
+        static bool eq(const long double &a, const long double &b) { return a == b; }
+        static bool is_container() { return false; }
+        static std::string show(const long double &v) { return std::to_string(v); }
+    };
+    static_assert(sizeof(long double) == 16, "x86-64 long double expected");
+    // zeroes the padding of the long double image at the end of `bytes` (after checking that a full image is there)
+    static inline void normalise_long_double_tail(std::string &bytes, size_t before, const char *who)
+    {
+        if (bytes.size() - before != sizeof(long double))
+            kit::violate(std::string("C09/layout@") + who + ":long double", "a long double is written as %zu bytes, its fixed-width image has %zu", bytes.size() - before, sizeof(long double));
+        for (size_t i = before + 10; i < before + 16; i++) bytes[i] = 0;
+    }
+
     template <> struct Ref<std::string>
     {
         static std::string gen(kit::Rng &r, GenCfg &c)
